@@ -1,4 +1,202 @@
-(* placeholder until CloneProofs.v lands *)
-From Coercion.Clone Require Import Clone.
-Theorem c18_placeholder : True. Proof. exact I. Qed.
-Print Assumptions c18_placeholder.
+(* C18 - Clones are deep, definition-preserving and resubmittable.
+
+   Model: Clone.v (clone.go over the tree of Coercion.Base.Plan, field by field, the options keep-secrets and
+   keep-state), CloneLoc.v (the same functions over a tree in which every pointer, slice backing array and
+   map carries a location label, allocating from a counter). Vocabulary: CloneSpec.v.
+   External code = premises: [deepcopy] (brunoga/deep.MustCopy: same value; on labelled values: all nodes
+   newly allocated), [scrub] (clone.Secure on one request / response value, property C17; on labelled values:
+   introduces no location), [reg] (the registry the clone is submitted to).
+
+   Every theorem is a conjunction over the five object kinds: plan, block, sequence, checks group, action.
+   (Sequence: clone.Sequence returns nil for a sequence without actions, hence the option.)
+
+   What the code does that the property's wording leaves open, and the statements make explicit:
+   - keys are never copied: the clone's definition is the original's WITHOUT keys;
+   - nil blocks / nil sequences / sequences without actions are dropped, nil slices come back empty, an empty
+     attempts slice comes back nil ([norm_*], the identity on [regular_*] trees - every accepted plan is regular);
+   - without keep-secrets the requests (and, with keep-state, the attempt responses) are scrubbed ([sf]). *)
+From Coercion.Base Require Import Plan.
+From Coercion.Clone Require Import Clone CloneSpec CloneLoc CloneCheck CloneProofs CloneLocProofs CloneCheckProofs CloneExamples.
+
+(* ---- the definition is preserved: for EVERY input, whatever its shape and state ---- *)
+Theorem c18_defn_preserved_general :
+  forall (reg : tok -> blob -> option (bool * bool)) (scrub deepcopy : blob -> blob),
+  (forall b, deepcopy b = b) ->
+  forall o : opts,
+  (forall p, defn_plan (clone_plan reg scrub deepcopy o p)
+             = reqmap_plan (sf scrub o) (nokeys_plan (defn_plan (norm_plan p)))) /\
+  (forall b, defn_block (clone_block reg scrub deepcopy o b)
+             = reqmap_block (sf scrub o) (nokeys_block (defn_block (norm_block b)))) /\
+  (forall s, option_map defn_sequence (clone_sequence reg scrub deepcopy o s)
+             = option_map (fun s => reqmap_sequence (sf scrub o) (nokeys_sequence (defn_sequence s))) (norm_sequence s)) /\
+  (forall c, defn_checks (clone_checks reg scrub deepcopy o c)
+             = reqmap_checks (sf scrub o) (nokeys_checks (defn_checks (norm_checks c)))) /\
+  (forall a, defn_action (clone_action reg scrub deepcopy o a)
+             = reqmap_action (sf scrub o) (nokeys_action (defn_action (norm_action a)))).
+Proof. exact defn_preserved_general. Qed.
+Print Assumptions c18_defn_preserved_general.
+
+(* ---- ... which on regular trees is: defn (clone o p) = defn_without_keys p, when scrubbing leaves the
+        requests alone (always so with keep-secrets: c18_keep_secrets_fixes_everything) ---- *)
+Theorem c18_defn_preserved :
+  forall (reg : tok -> blob -> option (bool * bool)) (scrub deepcopy : blob -> blob),
+  (forall b, deepcopy b = b) ->
+  forall o : opts,
+  (forall p, regular_plan p -> Forall (fun r => sf scrub o r = r) (reqs_plan p) ->
+             defn_plan (clone_plan reg scrub deepcopy o p) = nokeys_plan (defn_plan p)) /\
+  (forall b, regular_block b -> Forall (fun r => sf scrub o r = r) (reqs_block b) ->
+             defn_block (clone_block reg scrub deepcopy o b) = nokeys_block (defn_block b)) /\
+  (forall s, regular_sequence s -> Forall (fun r => sf scrub o r = r) (reqs_sequence s) ->
+             option_map defn_sequence (clone_sequence reg scrub deepcopy o s) = Some (nokeys_sequence (defn_sequence s))) /\
+  (forall c, regular_checks c -> Forall (fun r => sf scrub o r = r) (reqs_checks c) ->
+             defn_checks (clone_checks reg scrub deepcopy o c) = nokeys_checks (defn_checks c)) /\
+  (forall a, regular_action a -> sf scrub o (a_req a) = a_req a ->
+             defn_action (clone_action reg scrub deepcopy o a) = nokeys_action (defn_action a)).
+Proof. exact defn_preserved. Qed.
+Print Assumptions c18_defn_preserved.
+
+Theorem c18_keep_secrets_fixes_everything :
+  forall (scrub : blob -> blob) (o : opts) (l : list blob),
+  keep_secrets o = true -> Forall (fun b => sf scrub o b = b) l.
+Proof. exact sf_keep. Qed.
+Print Assumptions c18_keep_secrets_fixes_everything.
+
+(* ---- by default all engine-owned state is stripped ---- *)
+Theorem c18_default_pristine :
+  forall (reg : tok -> blob -> option (bool * bool)) (scrub deepcopy : blob -> blob),
+  forall o : opts, keep_state o = false ->
+  (forall p, pristine_plan (clone_plan reg scrub deepcopy o p)) /\
+  (forall b, pristine_block (clone_block reg scrub deepcopy o b)) /\
+  (forall s r, clone_sequence reg scrub deepcopy o s = Some r -> pristine_sequence r) /\
+  (forall c, pristine_checks (clone_checks reg scrub deepcopy o c)) /\
+  (forall a, pristine_action (clone_action reg scrub deepcopy o a)).
+Proof. exact default_pristine. Qed.
+Print Assumptions c18_default_pristine.
+
+(* ---- so the default clone of anything whose definition is well-formed passes Validate, whatever execution
+        state the original is in (no premise mentions ids, states, attempts, reason, submit time or keys).
+        [sf scrub o]: the definition must be well-formed as the registry will see it, i.e. with the requests
+        scrubbed unless keep-secrets is set ---- *)
+Theorem c18_default_resubmittable :
+  forall (reg : tok -> blob -> option (bool * bool)) (scrub deepcopy : blob -> blob),
+  (forall b, deepcopy b = b) ->
+  forall o : opts, keep_state o = false ->
+  (forall p, WF_defn_plan reg (sf scrub o) (defn_plan p) -> validate_plan (clone_plan reg scrub deepcopy o p) = true) /\
+  (forall b, WF_defn_block reg (sf scrub o) (defn_block b) -> validate_block_k (clone_block reg scrub deepcopy o b) = true) /\
+  (forall s, WF_defn_sequence reg (sf scrub o) (defn_sequence s) ->
+             exists r, clone_sequence reg scrub deepcopy o s = Some r /\ validate_sequence_k r = true) /\
+  (forall c, WF_defn_checks reg (sf scrub o) (defn_checks c) -> validate_checks_k (clone_checks reg scrub deepcopy o c) = true) /\
+  (forall a, WF_defn_action reg (sf scrub o) (defn_action a) -> validate_action_k (clone_action reg scrub deepcopy o a) = true).
+Proof. exact default_resubmittable. Qed.
+Print Assumptions c18_default_resubmittable.
+
+(* the definition well-formed AS IT WAS SUBMITTED suffices when no plugin rejects the scrubbed form of a request
+   it accepts (CloneExamples.ex_strict_plugin shows the premise cannot be dropped) *)
+Theorem c18_default_resubmittable_as_submitted :
+  forall (reg : tok -> blob -> option (bool * bool)) (scrub deepcopy : blob -> blob),
+  (forall b, deepcopy b = b) ->
+  forall o : opts, keep_state o = false ->
+  (forall pl r c, reg pl r = Some (c, true) -> exists c', reg pl (sf scrub o r) = Some (c', true)) ->
+  forall p, WF_defn_plan reg (fun b => b) (defn_plan p) -> validate_plan (clone_plan reg scrub deepcopy o p) = true.
+Proof. exact default_resubmittable_scrubbed. Qed.
+Print Assumptions c18_default_resubmittable_as_submitted.
+
+(* ---- with keep-state the ids, statuses, times, reason, submit time and attempts (responses, errors with
+        their wrapped chains) are preserved: for every input ... ---- *)
+Theorem c18_keepstate_general :
+  forall (reg : tok -> blob -> option (bool * bool)) (scrub deepcopy : blob -> blob),
+  (forall b, deepcopy b = b) ->
+  forall o : opts, keep_state o = true ->
+  (forall p, state_plan (clone_plan reg scrub deepcopy o p) = respmap_plan (sf scrub o) (state_plan (norm_plan p))) /\
+  (forall b, state_block (clone_block reg scrub deepcopy o b) = respmap_block (sf scrub o) (state_block (norm_block b))) /\
+  (forall s, option_map state_sequence (clone_sequence reg scrub deepcopy o s)
+             = option_map (fun s => respmap_sequence (sf scrub o) (state_sequence s)) (norm_sequence s)) /\
+  (forall c, state_checks (clone_checks reg scrub deepcopy o c) = respmap_checks (sf scrub o) (state_checks (norm_checks c))) /\
+  (forall a, state_action (clone_action reg scrub deepcopy o a) = respmap_action (sf scrub o) (state_action (norm_action a))).
+Proof. exact keepstate_general. Qed.
+Print Assumptions c18_keepstate_general.
+
+(* ---- ... and on regular trees: state_of (clone keep p) = state_of p ---- *)
+Theorem c18_keepstate :
+  forall (reg : tok -> blob -> option (bool * bool)) (scrub deepcopy : blob -> blob),
+  (forall b, deepcopy b = b) ->
+  forall o : opts, keep_state o = true ->
+  (forall p, regular_plan p -> Forall (fun r => sf scrub o r = r) (resps_plan p) ->
+             state_plan (clone_plan reg scrub deepcopy o p) = state_plan p) /\
+  (forall b, regular_block b -> Forall (fun r => sf scrub o r = r) (resps_block b) ->
+             state_block (clone_block reg scrub deepcopy o b) = state_block b) /\
+  (forall s, regular_sequence s -> Forall (fun r => sf scrub o r = r) (resps_sequence s) ->
+             option_map state_sequence (clone_sequence reg scrub deepcopy o s) = Some (state_sequence s)) /\
+  (forall c, regular_checks c -> Forall (fun r => sf scrub o r = r) (resps_checks c) ->
+             state_checks (clone_checks reg scrub deepcopy o c) = state_checks c) /\
+  (forall a, regular_action a -> Forall (fun r => sf scrub o r = r) (map at_resp (olist (a_attempts a))) ->
+             state_action (clone_action reg scrub deepcopy o a) = state_action a).
+Proof. exact keepstate. Qed.
+Print Assumptions c18_keepstate.
+
+(* ---- no sharing. The allocating clone over labelled trees computes the value-level clone ... ---- *)
+Theorem c18_labelled_clone_refines :
+  forall (reg : tok -> blob -> option (bool * bool)) (scrub deepcopy : blob -> blob)
+         (ldeepcopy : lblob -> M lblob) (lscrub : lblob -> lblob),
+  (forall b n, n <= snd (ldeepcopy b n) /\
+               Forall (fun x => n <= x < snd (ldeepcopy b n)) (lb_locs (fst (ldeepcopy b n))) /\
+               lb_val (fst (ldeepcopy b n)) = deepcopy (lb_val b)) ->
+  (forall b, lb_val (lscrub b) = scrub (lb_val b)) ->
+  (forall b x, In x (lb_locs (lscrub b)) -> In x (lb_locs b)) ->
+  forall (o : opts) (n : nat),
+  (forall p, erase_plan (fst (lclone_plan reg ldeepcopy lscrub o p n)) = clone_plan reg scrub deepcopy o (erase_plan p)) /\
+  (forall b, erase_block (fst (lclone_block reg ldeepcopy lscrub o b n)) = clone_block reg scrub deepcopy o (erase_block b)) /\
+  (forall s, option_map erase_sequence (fst (lclone_sequence reg ldeepcopy lscrub o s n))
+             = clone_sequence reg scrub deepcopy o (erase_sequence s)) /\
+  (forall c, erase_checks (fst (lclone_checks reg ldeepcopy lscrub o c n)) = clone_checks reg scrub deepcopy o (erase_checks c)) /\
+  (forall a, erase_action (fst (lclone_action reg ldeepcopy lscrub o a n)) = clone_action reg scrub deepcopy o (erase_action a)).
+Proof. exact lclone_refines. Qed.
+Print Assumptions c18_labelled_clone_refines.
+
+(* ---- ... and every location reachable from its result was allocated during the call: it is disjoint from any
+        set [old] of locations that existed before (allocation counter n), in particular from locs of the
+        original, for every option set ---- *)
+Theorem c18_no_sharing :
+  forall (reg : tok -> blob -> option (bool * bool)) (scrub deepcopy : blob -> blob)
+         (ldeepcopy : lblob -> M lblob) (lscrub : lblob -> lblob),
+  (forall b n, n <= snd (ldeepcopy b n) /\
+               Forall (fun x => n <= x < snd (ldeepcopy b n)) (lb_locs (fst (ldeepcopy b n))) /\
+               lb_val (fst (ldeepcopy b n)) = deepcopy (lb_val b)) ->
+  (forall b, lb_val (lscrub b) = scrub (lb_val b)) ->
+  (forall b x, In x (lb_locs (lscrub b)) -> In x (lb_locs b)) ->
+  forall (o : opts) (n : nat) (old : list loc), (forall l, In l old -> l < n) ->
+  (forall p l, In l (locs_plan (fst (lclone_plan reg ldeepcopy lscrub o p n))) -> ~ In l old) /\
+  (forall b l, In l (locs_block (fst (lclone_block reg ldeepcopy lscrub o b n))) -> ~ In l old) /\
+  (forall s l, In l (locs_opt locs_sequence (fst (lclone_sequence reg ldeepcopy lscrub o s n))) -> ~ In l old) /\
+  (forall c l, In l (locs_checks (fst (lclone_checks reg ldeepcopy lscrub o c n))) -> ~ In l old) /\
+  (forall a l, In l (locs_action (fst (lclone_action reg ldeepcopy lscrub o a n))) -> ~ In l old).
+Proof. exact no_sharing. Qed.
+Print Assumptions c18_no_sharing.
+
+(* the premises about deep.MustCopy and clone.Secure have a model: closed instance, original vs clone *)
+Theorem c18_no_sharing_instance :
+  forall reg scrub o (p : lplan) l,
+  In l (locs_plan (fst (lclone_plan reg ldeepcopy_fresh (lscrub_of scrub) o p (S (list_max (locs_plan p)))))) ->
+  ~ In l (locs_plan p).
+Proof. exact no_sharing_fresh_instance. Qed.
+Print Assumptions c18_no_sharing_instance.
+
+(* ---- the checker's booleans mean the declarative predicates ---- *)
+Theorem c18_wf_b_sound : forall reg f p, wf_plan_b reg f p = true -> WF_defn_plan reg f p.
+Proof. exact wf_plan_b_sound. Qed.
+Print Assumptions c18_wf_b_sound.
+
+Theorem c18_pristine_b_complete : forall p, pristine_plan p -> pristine_plan_b p = true.
+Proof. exact pristine_plan_b_complete. Qed.
+Print Assumptions c18_pristine_b_complete.
+
+(* ---- non-vacuity: a plan that ran to failure (CloneExamples.ex_plan) meets the hypotheses, is itself rejected
+        by validate, its default clone is accepted, its keep-state clone is not ---- *)
+Example c18_example_hypotheses :
+  regular_plan ex_plan /\ WF_defn_plan ex_reg (sf ex_scrub o_default) (defn_plan ex_plan) /\
+  validate_plan ex_plan = false /\
+  validate_plan (clone_plan ex_reg ex_scrub idb o_default ex_plan) = true /\
+  validate_plan (clone_plan ex_reg ex_scrub idb o_keep ex_plan) = false.
+Proof.
+  exact (conj ex_regular (conj ex_wf_scrubbed (conj ex_original_rejected (conj ex_default_clone_accepted ex_keepstate_clone_rejected)))).
+Qed.
